@@ -83,6 +83,7 @@ type obligation struct {
 	model   string
 	output  string
 	canary  bool // must be refuted (vacuity check)
+	soft    bool // reachability probe: an unsat answer is recorded (dead block under the contract) but is not a failure
 	inputs  []inputVar
 }
 
@@ -118,6 +119,10 @@ type vc struct {
 	calleesByContract map[string]bool
 	inlined   map[string]bool
 	tableRefs []tableRef
+	tablesDone map[*ssa.Global]bool
+	nonNil    map[string]bool
+	nTable    int
+	reach     []*obligation // soft reachability canaries (one per block of the top-level function)
 }
 
 func newVC(p *program, fn *ssa.Function, fc *funcContract) *vc {
@@ -179,9 +184,9 @@ func (x *vc) typeInv(term string, t types.Type, st *state) string {
 	}
 	switch x.srt.sortOf(t) {
 	case sStr:
-		return and(app("<=", "0", app("slen", term)), app("<=", "0", app("soff", term)))
+		return and(app("<=", "0", app("slen", term)), app("<=", app("slen", term), "9223372036854775807"), app("<=", "0", app("soff", term)))
 	case sSlice:
-		return and(app("<=", "0", app("sl_len", term)), app("<=", app("sl_len", term), app("sl_cap", term)), app("<=", "0", app("sl_off", term)),
+		return and(app("<=", "0", app("sl_len", term)), app("<=", app("sl_len", term), app("sl_cap", term)), app("<=", app("sl_cap", term), "9223372036854775807"), app("<=", "0", app("sl_off", term)),
 			app("<=", "0", app("sl_arr", term)), implies(eq(app("sl_arr", term), "0"), and(eq(app("sl_len", term), "0"), eq(app("sl_cap", term), "0"))),
 			x.refBound(app("sl_arr", term), st))
 	case sIface:
@@ -474,6 +479,13 @@ func (x *vc) newFrame(fn *ssa.Function, depth int) *frame {
 	return fr
 }
 
+func (x *vc) framePrefix(fr *frame) string {
+	if fr.top {
+		return ""
+	}
+	return shortFn(fr.fn) + "."
+}
+
 // findLoops identifies natural loops using dominators
 func findLoops(fn *ssa.Function) []*loopInfo {
 	var loops []*loopInfo
@@ -674,6 +686,16 @@ func (x *vc) execBody(fr *frame, st0 *state) execResult {
 		if li != nil {
 			x.loopHeader(fr, st, li)
 		}
+		if b.Index != 0 && st.guard != "false" {
+			kind := "block"
+			if len(b.Instrs) > 0 {
+				if _, isPanic := b.Instrs[len(b.Instrs)-1].(*ssa.Panic); isPanic {
+					kind = "panic-block"
+				}
+			}
+			x.reach = append(x.reach, &obligation{name: x.oblName("reach", fmt.Sprintf("%sb%d", x.framePrefix(fr), b.Index)), class: "reach", fn: fnKey(x.top),
+				goal: "false", guard: st.guard, nDecl: len(x.decls), nAssert: len(x.asserts), pos: x.p.pos(firstPos(b)), desc: kind + " reachable under the contract (probe)", auto: true, canary: true, soft: true})
+		}
 		noFall := x.execBlock(fr, st, b)
 		if noFall {
 			continue
@@ -768,7 +790,7 @@ func (x *vc) loopHeader(fr *frame, st *state, li *loopInfo) {
 	// 1. invariants hold on entry
 	for k, inv := range invs {
 		g := x.evalBool(env, inv.expr)
-		x.oblige(st, "inv-entry", fmt.Sprintf("loop%d.%d", li.ordinal, k), g, pos, "loop invariant holds on entry: "+inv.text, false)
+		x.oblige(st, "inv-entry", fmt.Sprintf("%sloop%d.%d", x.framePrefix(fr), li.ordinal, k), g, pos, "loop invariant holds on entry: "+inv.text, false)
 	}
 	entryPhis := map[*ssa.Phi]Val{}
 	for _, instr := range li.header.Instrs {
@@ -779,7 +801,7 @@ func (x *vc) loopHeader(fr *frame, st *state, li *loopInfo) {
 	for _, a := range autos {
 		g := a.holds(entryPhis[a.phi].T)
 		if g != "true" {
-			x.oblige(st, "inv-entry", fmt.Sprintf("loop%d.auto", li.ordinal), g, pos, "inferred counter bound holds on entry", true)
+			x.oblige(st, "inv-entry", fmt.Sprintf("%sloop%d.auto", x.framePrefix(fr), li.ordinal), g, pos, "inferred counter bound holds on entry", true)
 		}
 	}
 	// 2. havoc
@@ -904,6 +926,28 @@ func (x *vc) autoInvariants(fr *frame, li *loopInfo) []autoInv {
 			continue
 		}
 		out = append(out, autoInv{phi: phi, lower: dir > 0, bound: smtInt(init.Int64())})
+		// range-index pattern: next = phi + 1; if next < N goto body  ==>  phi <= N - 1 (N loop-invariant, init <= N-1 is checked on entry)
+		if dir > 0 {
+			for k, p := range li.header.Preds {
+				if !isBackEdge(p, li.header) {
+					continue
+				}
+				bo, _ := phi.Edges[k].(*ssa.BinOp)
+				if bo == nil || bo.Block() != li.header {
+					continue
+				}
+				if iff, ok := li.header.Instrs[len(li.header.Instrs)-1].(*ssa.If); ok {
+					if cmp, ok := iff.Cond.(*ssa.BinOp); ok && cmp.Op == token.LSS && cmp.X == ssa.Value(bo) {
+						if nv, ok := fr.vals[cmp.Y]; ok && nv.T != "" {
+							if ni, isInstr := cmp.Y.(ssa.Instruction); !isInstr || !li.body[ni.Block().Index] {
+								out = append(out, autoInv{phi: phi, lower: false, bound: app("-", nv.T, "1")})
+							}
+						}
+					}
+				}
+				break
+			}
+		}
 	}
 	return out
 }
@@ -1011,7 +1055,29 @@ func (x *vc) addrRootOutside(fr *frame, v ssa.Value, li *loopInfo) (Val, bool) {
 	return Val{}, false
 }
 
+// addrRoot follows FieldAddr/IndexAddr chains to the pointer they are derived from
+func addrRoot(v ssa.Value) ssa.Value {
+	for {
+		switch a := v.(type) {
+		case *ssa.FieldAddr:
+			v = a.X
+		case *ssa.IndexAddr:
+			if _, isPtr := a.X.Type().Underlying().(*types.Pointer); isPtr {
+				v = a.X
+			} else {
+				return v
+			}
+		default:
+			return v
+		}
+	}
+}
+
 func (x *vc) modsOfStoreAddr(fr *frame, st *state, addr ssa.Value, li *loopInfo, mod *modSet) {
+	// a store into an object allocated inside the scanned region cannot change any object that existed before it
+	if al, ok := addrRoot(addr).(*ssa.Alloc); ok && li != nil && al.Block() != nil && al.Parent() == fr.fn && li.body[al.Block().Index] {
+		return
+	}
 	switch a := addr.(type) {
 	case *ssa.FieldAddr:
 		pt := a.X.Type().Underlying().(*types.Pointer).Elem()
@@ -1178,6 +1244,12 @@ func (x *vc) modsOfCall(fr *frame, st *state, in ssa.CallInstruction, li *loopIn
 		if i < len(args) {
 			if rv, ok := x.addrRootOutside(fr, args[i], li); ok {
 				sub.vals[p] = rv
+			} else if mc, ok := args[i].(*ssa.MakeClosure); ok {
+				sub.vals[p] = Val{Fn: mc.Fn.(*ssa.Function), Typ: p.Type()}
+			} else if f, ok := args[i].(*ssa.Function); ok {
+				sub.vals[p] = Val{Fn: f, Typ: p.Type()}
+			} else if v, ok := fr.vals[args[i]]; ok && v.Fn != nil {
+				sub.vals[p] = Val{Fn: v.Fn, Typ: p.Type()}
 			}
 		}
 	}
